@@ -32,6 +32,9 @@ pub struct SysSpec {
     pub named: Vec<(String, Sh)>,
     /// prefix for input names (`_input_` makes them anonymous for C11)
     pub anon_inputs: Vec<bool>,
+    /// create the input and state symbols in the context in reverse order before registering them, so that
+    /// the registration order (sys.inputs / sys.states) is not the order of the references
+    pub reverse_create: bool,
 }
 
 #[derive(Clone, Copy, Debug)]
@@ -73,6 +76,14 @@ impl SysSpec {
     pub fn build(&self, ctx: &mut Context) -> TransitionSystem {
         let nm = self.namer();
         let mut sys = TransitionSystem::new(self.name.clone());
+        if self.reverse_create {
+            for (i, st) in self.states.iter().enumerate().rev() {
+                Sh::Sym(STATE_BASE + i as u8, st.ty).build_with(ctx, &nm);
+            }
+            for (i, t) in self.inputs.iter().enumerate().rev() {
+                Sh::Sym(i as u8, *t).build_with(ctx, &nm);
+            }
+        }
         for (i, t) in self.inputs.iter().enumerate() {
             let s = Sh::Sym(i as u8, *t).build_with(ctx, &nm);
             sys.add_input(ctx, s);
@@ -175,6 +186,127 @@ pub fn add_array_io(spec: &mut SysSpec, variant: u64) {
     }
 }
 
+/// Wide signals (added after an independently seeded change to the btor2 writer's literal spelling showed that
+/// no generated system had a literal wider than 9 bits): a state wider than one machine word with a literal
+/// init, a next function and a bad state that mention further wide literals - values above 2^64 whose lower
+/// words have leading zero nibbles, all-ones, single high bits -, and an output that slices it down.
+pub fn add_wide_signals(spec: &mut SysSpec, variant: u64) {
+    if spec.states.len() >= 12 {
+        return;
+    }
+    let w = [65u32, 68, 72, 100, 128, 129, 132, 256, 64][(variant % 9) as usize];
+    let one = BigUint::from(1u32);
+    let lits: Vec<BigUint> = vec![
+        (&one << 64u32) + 5u32,
+        (&one << (w - 1)) + (&one << 32u32) + 3u32,
+        (&one << w) - 1u32,
+        ((&one << 64u32) * 0xabcu32) + 0x0f00_0000_0000_0001u64,
+        (&one << (w - 1)),
+        BigUint::from(0x1234_5678_9abc_def0u64),
+        (&one << (w / 2)) - 1u32,
+    ]
+    .into_iter()
+    .map(|x| x & ((&one << w) - 1u32))
+    .collect();
+    let t = Ty::BV(w);
+    let si = spec.states.len() as u8;
+    let me = Sh::Sym(STATE_BASE + si, t);
+    let l = |k: u64| Sh::Lit(w, lits[((variant / 9 + k) % lits.len() as u64) as usize].clone());
+    let step = Sh::Op(Op::Add, [0, 0], vec![me.clone(), l(1)]);
+    let next = if spec.inputs.iter().any(|t| *t == Ty::BV(1)) {
+        let ii = spec.inputs.iter().position(|t| *t == Ty::BV(1)).unwrap() as u8;
+        Sh::Op(Op::Ite, [0, 0], vec![Sh::Sym(ii, Ty::BV(1)), l(2), step])
+    } else {
+        Sh::Op(Op::Xor, [0, 0], vec![step, l(2)])
+    };
+    spec.states.push(StateSpec { ty: t, init: Some(l(0)), next: Some(next) });
+    spec.bads.push(Sh::Op(Op::Equal, [0, 0], vec![me.clone(), l(3)]));
+    spec.outputs.push((format!("wide{w}_lo"), Sh::Op(Op::Slice, [w / 2, 1], vec![Sh::Op(Op::And, [0, 0], vec![me, l(4)])])));
+}
+
+/// Properties the simplifier resolves completely, and an unobserved register with an input of its own:
+/// a constraint / bad state that folds to constant true or constant false (`x & !x`, `eq(concat(x, 0), 1)`,
+/// `ugte(x, 0)`), and a state that no output, bad state or constraint depends on whose init / next read an
+/// input nothing else reads.
+pub fn add_trivial_properties(spec: &mut SysSpec, variant: u64) {
+    let bvs: Vec<(u8, Ty)> = spec
+        .inputs
+        .iter()
+        .enumerate()
+        .map(|(i, t)| (i as u8, *t))
+        .chain(spec.states.iter().enumerate().map(|(i, s)| (STATE_BASE + i as u8, s.ty)))
+        .filter(|s| matches!(s.1, Ty::BV(_)))
+        .collect();
+    if bvs.is_empty() || spec.inputs.len() >= STATE_BASE as usize - 2 {
+        return;
+    }
+    let (xi, xt) = bvs[(variant as usize) % bvs.len()];
+    let w = xt.bv().unwrap();
+    let x = Sh::Sym(xi, xt);
+    let notx = Sh::Op(Op::Not, [0, 0], vec![x.clone()]);
+    let zero = Sh::Lit(w, BigUint::from(0u32));
+    // always false, 1 bit
+    let f1 = Sh::Op(Op::Equal, [0, 0], vec![Sh::Op(Op::Concat, [0, 0], vec![x.clone(), Sh::Lit(1, BigUint::from(0u32))]), Sh::Lit(w + 1, BigUint::from(1u32))]);
+    let f2 = Sh::Op(Op::Equal, [0, 0], vec![Sh::Op(Op::And, [0, 0], vec![x.clone(), notx.clone()]), Sh::Lit(w, (BigUint::from(1u32) << w) - 1u32)]);
+    // always true, 1 bit
+    let t1 = Sh::Op(Op::Uge, [0, 0], vec![x.clone(), zero.clone()]);
+    let t2 = Sh::Op(Op::Equal, [0, 0], vec![Sh::Op(Op::Or, [0, 0], vec![x.clone(), notx]), Sh::Lit(w, (BigUint::from(1u32) << w) - 1u32)]);
+    match variant % 6 {
+        0 => spec.constraints.push(f1),
+        1 => spec.constraints.push(f2),
+        2 => spec.constraints.push(t1),
+        3 => spec.bads.push(t2),
+        4 => spec.bads.push(f1),
+        _ => {
+            spec.constraints.push(t2);
+            spec.bads.push(f2);
+        }
+    }
+    // unobserved register with its own input
+    let ii = spec.inputs.len() as u8;
+    let iw = 1 + (variant % 4) as u32;
+    spec.inputs.push(Ty::BV(iw));
+    spec.anon_inputs.push(variant % 3 != 0);
+    let si = spec.states.len() as u8;
+    let me = Sh::Sym(STATE_BASE + si, Ty::BV(iw));
+    let inp = Sh::Sym(ii, Ty::BV(iw));
+    let next = Sh::Op(Op::Xor, [0, 0], vec![Sh::Op(Op::Add, [0, 0], vec![me, inp.clone()]), Sh::Lit(iw, BigUint::from(1u32))]);
+    let init = if variant % 2 == 0 { Some(Sh::Lit(iw, BigUint::from(0u32))) } else { None };
+    spec.states.push(StateSpec { ty: Ty::BV(iw), init, next: Some(next) });
+}
+
+/// Bad states that mention inputs only, coupled to the state by a constraint (added after an independently
+/// seeded "no bad state depends on a state => one step is enough" shortcut in bmc): a counter `c`, an input
+/// `x` of the same width, constraint `c >= x` (or `x == c`), bad `x == k` - reachable exactly at step k
+/// although no state is in the cone of the bad state. Replaces the system's bad states and constraints.
+pub fn input_bad_state_constraint(spec: &mut SysSpec, variant: u64, fresh: bool) {
+    if fresh {
+        spec.states.clear();
+        spec.inputs.clear();
+        spec.anon_inputs.clear();
+        spec.outputs.clear();
+        spec.named.clear();
+    }
+    let w = 2 + (variant % 2) as u32;
+    let t = Ty::BV(w);
+    if spec.inputs.len() >= STATE_BASE as usize - 1 {
+        return;
+    }
+    let xi = spec.inputs.len() as u8;
+    spec.inputs.push(t);
+    spec.anon_inputs.push(false);
+    let ci = spec.states.len() as u8;
+    let c = Sh::Sym(STATE_BASE + ci, t);
+    let x = Sh::Sym(xi, t);
+    spec.states.push(StateSpec { ty: t, init: Some(Sh::Lit(w, BigUint::from(0u32))), next: Some(Sh::Op(Op::Add, [0, 0], vec![c.clone(), Sh::Lit(w, BigUint::from(1u32))])) });
+    spec.bads.clear();
+    spec.constraints.clear();
+    let k = 1 + (variant / 2) % 3;
+    spec.constraints.push(if variant % 3 == 0 { Sh::Op(Op::Equal, [0, 0], vec![x.clone(), c]) } else { Sh::Op(Op::Uge, [0, 0], vec![c, x.clone()]) });
+    spec.bads.push(Sh::Op(Op::Equal, [0, 0], vec![x, Sh::Lit(w, BigUint::from(k))]));
+    spec.pattern = "input-bad+state-constraint";
+}
+
 pub fn show_with(e: &Sh, nm: &dyn Fn(u8, Ty) -> String) -> String {
     match e {
         Sh::Sym(i, t) => nm(*i, *t),
@@ -273,7 +405,7 @@ pub const PATTERNS: [&str; 13] = [
 pub fn generate(seed: u64, stream: &str, index: u64, cfg: &GenCfg) -> SysSpec {
     let mut rng = Rng::new(seed, stream, index);
     let pattern = PATTERNS[(index as usize) % PATTERNS.len()];
-    let mut spec = SysSpec { name: format!("{stream}_{index}"), pattern, ..Default::default() };
+    let mut spec = SysSpec { name: format!("{stream}_{index}"), pattern, reverse_create: index % 3 == 1, ..Default::default() };
     let n_inputs = rng.below(cfg.max_inputs + 1);
     for _ in 0..n_inputs {
         spec.inputs.push(Ty::BV(rng.range(1, cfg.max_width)));
